@@ -30,6 +30,7 @@
      that class (c19_guard_is_needed shows it is needed). *)
 From Coq Require Import Sorting.Sorted.
 From Tab Require Import Model.Registry Model.Auto Spec.RegistrySpec Proofs.RegistryProofs Proofs.AutoProofs Proofs.AutoFrame.
+From Tab Require Import Model.DecorCells Proofs.AutoR6.
 
 (* Every listed name yields a renderer whose Render() of a good table
    succeeds - dotted names included (D19 on the pinned tree). *)
@@ -183,4 +184,97 @@ Proof.
   cbv zeta. split.
   - intros k d H. vm_compute in H. repeat (destruct H as [H|H]; [inversion H; eauto|]). destruct H.
   - repeat split; vm_compute; auto 20.
+Qed.
+
+(* ---------------------------------------------------------------- round 6 *)
+Local Close Scope N_scope.
+
+(* The renderer kind is read off strings.ToLower of the first section by byte
+   equality with the keywords, and off nothing else.  NO assumption on [lower]:
+   whatever ToLower does outside ASCII (U+212A KELVIN SIGN becomes k, U+017F
+   LONG S stays), no other Unicode notion of case - ToUpper, ToTitle, simple
+   case folding, special casing - has a say: a first section that merely FOLDS
+   to "csv" names a decoration, not the csv renderer. *)
+Theorem c19_kind_by_lower_only : forall lower reg s r,
+  wrap lower reg s = Ok r -> kind_of r = pkg_kind (lower (first_section s)).
+Proof. exact kind_by_lower_only_wrap. Qed.
+Print Assumptions c19_kind_by_lower_only.
+
+(* A name of ANY shape (dotted, non-ASCII, a case-folding relative of a
+   keyword) whose first section does not lower-case to a keyword, registered
+   with a non-empty decoration, renders with exactly that decoration - bare and
+   under "texttable." - and is a text table (c19_registered_selects_latest was
+   for dot-free names only). *)
+Theorem c19_registered_name_renders_latest : forall lower r_csv r_html r_markdown r_json body,
+  lower_on_ascii lower -> forall reg n d,
+  plain_name lower n -> dec_is_empty d = false ->
+  render_auto lower r_csv r_html r_markdown r_json body (register n d reg) n = spec_render body d
+  /\ render_auto lower r_csv r_html r_markdown r_json body (register n d reg) (s_texttable ++ DOT :: n) = spec_render body d.
+Proof. exact registered_renders_latest_qualified. Qed.
+Print Assumptions c19_registered_name_renders_latest.
+
+Theorem c19_registered_name_is_text : forall lower reg n d r,
+  plain_name lower n -> wrap lower (register n d reg) n = Ok r -> kind_of r = KText.
+Proof. exact registered_kind_text_wrap. Qed.
+Print Assumptions c19_registered_name_is_text.
+
+(* A decoration as the application writes it (Model/DecorCells.v: its string
+   fields, any bytes, any number of runes per field) that is not the zero
+   value: registered under n it is listed, and n and "texttable."n render, the
+   same.  Nothing between RegisterDecorationName and the text renderer's body
+   looks inside a field. *)
+Theorem c19_any_cells_listed_and_render : forall lower r_csv r_html r_markdown r_json body,
+  lower_on_ascii lower -> forall reg n id (cd : cdecor),
+  (forall i, exists out, body (DVal i true) = Ok out) ->
+  plain_name lower n -> cd_is_empty cd = false ->
+  let reg' := register n (abstract id cd) reg in
+  In n (list_styles reg')
+  /\ renders (render_auto lower r_csv r_html r_markdown r_json body reg' n)
+  /\ render_auto lower r_csv r_html r_markdown r_json body reg' (s_texttable ++ DOT :: n)
+     = render_auto lower r_csv r_html r_markdown r_json body reg' n.
+Proof. exact any_cells_listed_and_render. Qed.
+Print Assumptions c19_any_cells_listed_and_render.
+
+(* The emitter's template line (emit.go commonTemplateLine) under ANY measure
+   of strings that is additive over concatenation: if the four drawing strings
+   are one cell each - however many runes - the line is exactly as many cells
+   wide as the emitter reckons, for every list of column widths. *)
+Theorem c19_template_line_cells : forall (W : bytes -> nat),
+  (forall a b, W (a ++ b) = W a + W b) ->
+  forall left horiz cross right widths,
+  W left = 1 -> W horiz = 1 -> W cross = 1 -> W right = 1 ->
+  W (template_line left horiz cross right widths) = line_cells widths.
+Proof. exact template_line_cells. Qed.
+Print Assumptions c19_template_line_cells.
+
+(* non-vacuity: "c<U+017F>v" (bytes 99 197 191 118; ToLower leaves it alone) registered with a
+   decoration whose only non-empty field is "-" + U+0336 (2 runes): listed, a text table rendering
+   with that decoration, bare and qualified; "csv" itself stays the csv renderer; and a template
+   line drawn with two-rune cells for widths [1;3] is 11 cells under the measure that counts
+   non-combining runes (here: bytes below 128). *)
+Local Open Scope N_scope.
+Example c19_r6_nonvacuous :
+  let lower := map ascii_lower in
+  let body := fun d => match d with DVal id true => Ok [id] | _ => Err end in
+  let ra := render_auto lower (Ok ([1], false)) (Ok ([2], false)) (Ok ([3], false)) (Ok ([4], false)) body in
+  let csv' := [99;197;191;118] in
+  let cd := mkCD [false] [[]; [45;204;182]; []] in
+  let reg := register csv' (abstract 77 cd) [([110;111;110;101], DVal 2 true)] in
+  plain_name lower csv'
+  /\ cd_is_empty cd = false /\ rune_count [45;204;182] = 2%nat
+  /\ In csv' (list_styles reg)
+  /\ ra reg csv' = Ok ([77], false)
+  /\ ra reg (s_texttable ++ DOT :: csv') = Ok ([77], false)
+  /\ (exists r, wrap lower reg csv' = Ok r /\ kind_of r = KText)
+  /\ ra reg s_csv = Ok ([1], false)
+  /\ (let W := fun s : bytes => length (filter (fun b => N.ltb b 128) s) in
+      W (template_line [43;204;182] [45;204;182] [43;204;182] [43;204;182] [1%nat;3%nat]) = 11%nat
+      /\ line_cells [1%nat;3%nat] = 11%nat).
+Proof.
+  cbv zeta. split.
+  - unfold plain_name. vm_compute. intros H. repeat (destruct H as [H|H]; [discriminate H|]). exact H.
+  - split; [vm_compute; reflexivity|]. split; [vm_compute; reflexivity|].
+    split; [vm_compute; auto 20|]. split; [vm_compute; reflexivity|]. split; [vm_compute; reflexivity|].
+    split; [eexists; split; vm_compute; reflexivity|]. split; [vm_compute; reflexivity|].
+    split; vm_compute; reflexivity.
 Qed.
